@@ -7,6 +7,7 @@ mod prims;
 mod rng;
 mod t1_addr;
 mod t1_pw;
+mod t1_sstcp;
 mod util;
 
 use std::io::{BufWriter, Write};
@@ -21,6 +22,7 @@ pub fn emit_case(w: &mut dyn Write, args: &[String], exec: fn(&[&str]) -> Vec<St
 fn exec_case(f: &[&str]) -> Vec<String> {
     match f[0] {
         "pw" => t1_pw::exec(f),
+        "sstcp" => t1_sstcp::exec(f),
         "s5enc" | "s5dec" | "s5try" | "vmw" | "vmr" => t1_addr::exec(f),
         _ => vec![format!("UNKNOWN-COMPONENT {}", f[0])],
     }
@@ -58,6 +60,7 @@ fn main() {
             util::quiet_panics();
             match comp {
                 "pw" => t1_pw::generate(&mut out, seed, thorough),
+                "sstcp" => t1_sstcp::generate(&mut out, seed, thorough),
                 "addr" => t1_addr::generate(&mut out, seed, thorough),
                 _ => {
                     eprintln!("unknown component {}", comp);
